@@ -63,6 +63,16 @@ func Canon(v interface{}) string {
 	return string(b)
 }
 
+// CanonJSON brings a JSON text to the same canonical form as Canon (object keys sorted).
+func CanonJSON(js string) string {
+	var x interface{}
+	if err := json.Unmarshal([]byte(js), &x); err != nil {
+		return "!unparsable:" + js
+	}
+	b, _ := json.Marshal(x)
+	return string(b)
+}
+
 // Rep is one replica of one datatype.
 type Rep struct {
 	Idx   int
